@@ -149,6 +149,49 @@ def check_stack(parts, json_given, print_results, scratch):
         return fail(f"fickling.load {'raised' if raised else 'returned'} but the first verdict is {sev[0]}")
     if raised is not None and raised.info.get("severity") != sev[0]:
         return fail(f"UnsafeFileError.info severity {raised.info.get('severity')} != {sev[0]}")
+    # the same face through the armed standard loader, after a with-block (asking for a lenient
+    # threshold where the API takes one) has come and gone
+    import pickle as _pk
+
+    from fickling.analysis import Severity as _Sev
+
+    try:
+        fickling.always_check_safety()
+        try:
+            with fickling.check_safety(max_acceptable_severity=_Sev.OVERTLY_MALICIOUS):
+                pass
+        except TypeError:
+            with fickling.check_safety():
+                pass
+        try:
+            with open(path, "rb") as f:
+                _pk.load(f)
+            hooked = None
+        except UnsafeFileError as e:
+            hooked = e
+        except Exception as e:  # noqa: BLE001
+            return fail(f"hooked pickle.load raised {e!r}")
+    finally:
+        fickling.hook.remove_hook()
+        reset_pickle_bindings()
+    if (hooked is not None) != (ranks[0] > 0):
+        return fail(f"pickle.load under always_check_safety() {'raised' if hooked else 'returned'} but the first verdict is {sev[0]}")
+    # the report the library writes itself, at every verbosity the API accepts
+    for v in _Sev:
+        rp = os.path.join(scratch.path, f"lib_report_{v.name}.json")
+        try:
+            r0 = check_safety(sp[0], verbosity=v, json_output_path=rp)
+            with open(rp) as f:
+                docs0 = parse_concat_json(f.read())
+        except Exception as e:  # noqa: BLE001
+            return fail(f"check_safety(verbosity={v.name}, json_output_path=...) failed: {e!r}")
+        finally:
+            if os.path.exists(rp):
+                os.remove(rp)
+        flat0 = [x for d in docs0 for x in (d if isinstance(d, list) else [d])]
+        if r0.severity.name != sev[0] or [x.get("severity") for x in flat0] != [sev[0]]:
+            return fail(f"check_safety(verbosity={v.name}, json_output_path=...) returned {r0.severity.name} and "
+                        f"wrote {[x.get('severity') for x in flat0]}; the verdict is {sev[0]}")
     if json_given == "unwritable":
         # fault: the report cannot be written. Only the fail-closed direction is asserted: a
         # flagged stack must not exit 0 (crashing counts as non-zero, as in a real process)
